@@ -184,11 +184,13 @@ def sumObs (obs : Array Nat) (lo : Int) : Nat → Nat → Out Nat
 
 /-- `esl_histogram_SetTail()`: `(status, h', newmass)` -/
 def Hist.setTail (h : Hist α) (phi : α) : Out (St × Hist α × α) :=
-  let (st, c) := h.score2bin phi
-  let h := { h with cmin := c }
-  if st != .ok then .val (st, h, zero) else
-  if !(inIntRange (c + 1)) then .fault else
-  let h := if eqb phi (h.ubound c) then { h with phi := phi } else { h with phi := h.lbound c }
+  let (st, c0) := h.score2bin phi
+  if st != .ok then .val (st, { h with cmin := c0 }, zero) else      -- Score2Bin wrote `*ret_b = 0` into h->cmin
+  if !(inIntRange (c0 + 1)) then .fault else            -- `(b)+1` in Bin2UBound / `h->cmin++`
+  -- `if (phi == UBound(cmin)) { h->phi = phi; h->cmin++; } else h->phi = LBound(cmin);`
+  let edge := eqb phi (h.ubound c0)
+  let c := if edge then c0 + 1 else c0
+  let newphi := if edge then phi else h.lbound c0
   -- `for (b = imin; b < cmin && b <= imax; b++) z += obs[b]`
   match sumObs h.obs h.imin (min c (h.imax + 1) - h.imin).toNat 0 with
   | .fault => .fault
@@ -196,7 +198,8 @@ def Hist.setTail (h : Hist α) (phi : α) : Out (St × Hist α × α) :=
     -- uint64_t arithmetic: No = n - z wraps; z ≤ n whenever the reads were in bounds (theorem)
     let no := if z ≤ h.n then h.n - z else h.n + 2^64 - z
     -- `if (h->cmin < 0) h->cmin = 0;` : bins below 0 do not exist; consumers index obs[cmin..imax]
-    let h := { h with cmin := if c < 0 then 0 else c, z := z, nc := h.n, no := no, datasetIs := .virtualCensored, isDone := true }
+    let h := { h with phi := newphi, cmin := if c < 0 then 0 else c, z := z, nc := h.n, no := no,
+                      datasetIs := .virtualCensored, isDone := true }
     .val (.ok, h, ofInt no / ofInt h.n)
 
 /-- the downward scan of `esl_histogram_SetTailByMass()`: returns `(b, sum)` -/
